@@ -135,3 +135,21 @@ M("C18", "writeat-range-gt", "iohelper/iohelper.go", "if off < 0 || off >= s.lim
 M("C18", "write-refuse-gt", "iohelper/iohelper.go", "if s.off >= s.limit {", "if s.off > s.limit {")
 M("C18", "seek-moves-on-error", "iohelper/iohelper.go", "\tif offset < s.base {\n\t\treturn 0, errOffset\n\t}\n\ts.off = offset", "\ts.off = offset\n\tif offset < s.base {\n\t\treturn 0, errOffset\n\t}")
 M("C18", "writeat-uses-cursor", "iohelper/iohelper.go", "\treturn s.w.WriteAt(p, off)\n}", "\tn, err = s.w.WriteAt(p, off)\n\ts.off += int64(n) * 0\n\tif off == s.off+1 {\n\t\ts.off = off\n\t}\n\treturn n, err\n}")
+# ---- C19 purity / concurrent readers
+M("C19", "rank64-stat-counter", "bitmap/rank.go", "func Rank64(words []uint64, rindex []int32, i int32) (int32, int32) {\n", "var rank64Calls int\n\nfunc Rank64(words []uint64, rindex []int32, i int32) (int32, int32) {\n\trank64Calls++\n")
+M("C19", "select32-inplace-restore", "bitmap/select.go", "\tw := words[wordI]\n\t// remove \"1\" upto i64th excluding the \"1\" at i64th\n\tw = w & ^Mask[base&63]\n\n\t// continue search for i-th 1\n\tfor {\n\n\t\tones := bits.OnesCount64(w)\n\t\tif ones <= findIth {",
+  "\tsaved := words[wordI]\n\twords[wordI] = saved & ^Mask[base&63]\n\tw := words[wordI]\n\twords[wordI] = saved\n\n\t// continue search for i-th 1\n\tfor {\n\n\t\tones := bits.OnesCount64(w)\n\t\tif ones <= findIth {")
+M("C19", "cmpupto-writes-back", "bitstr/bitstr.go", "\tbytea := a[la-1] & b[lb-1]\n", "\ta[la-1] &= b[lb-1]\n\tbytea := a[la-1]\n")
+MUTANTS.append(dict(prop="C19", name="C19-select-lazy-init", edits=[
+  ("bitmap/bitmap.go", "\tinitSelectLookup()\n", ""),
+  ("bitmap/select.go", "func initSelectLookup() {\n", "var selectLookupReady bool\n\nfunc ensureSelectLookup() {\n\tif !selectLookupReady {\n\t\tinitSelectLookup()\n\t\tselectLookupReady = true\n\t}\n}\n\nfunc initSelectLookup() {\n"),
+  ("bitmap/select.go", "func select32single(words []uint64, selectIndex []int32, i int32) int32 {\n", "func select32single(words []uint64, selectIndex []int32, i int32) int32 {\n\tensureSelectLookup()\n"),
+  ("bitmap/select.go", "func Select32(words []uint64, selectIndex []int32, i int32) (int32, int32) {\n", "func Select32(words []uint64, selectIndex []int32, i int32) (int32, int32) {\n\tensureSelectLookup()\n"),
+  ("bitmap/select.go", "func Select32R64(words []uint64, selectIndex, rankIndex []int32, i int32) (int32, int32) {\n", "func Select32R64(words []uint64, selectIndex, rankIndex []int32, i int32) (int32, int32) {\n\tensureSelectLookup()\n"),
+  ("bitmap/select.go", "func selectU64Indexed(w uint64, index uint64, findIth uint64) (int32, int) {\n", "func selectU64Indexed(w uint64, index uint64, findIth uint64) (int32, int) {\n\tensureSelectLookup()\n"),
+]))
+M("C19", "sigbits-shared-scratch", "sigbits/firstdiff.go", "\t\tbs := make([]byte, 8)\n\t\tcopy(bs, s)", "\t\tbs := padScratch[:]\n\t\tfor i := range bs {\n\t\t\tbs[i] = 0\n\t\t}\n\t\tcopy(bs, s)")
+MUTANTS[-1]["edits"] = [("sigbits/firstdiff.go", MUTANTS[-1]["old"], MUTANTS[-1]["new"]), ("sigbits/firstdiff.go", "func get64Bits(s string) uint64 {\n", "var padScratch [8]byte\n\nfunc get64Bits(s string) uint64 {\n")]
+M("C19", "bitword-cache-map", "bitword/bitword.go", "func (w *bitWord) FromStr(s string) []byte {\n", "var fromStrCache = map[string]int{}\n\nfunc (w *bitWord) FromStr(s string) []byte {\n\tif len(s) < 3 {\n\t\tfromStrCache[s]++\n\t}\n")
+M("C19", "table-mutated-by-query", "bitmap/next.go", "\tword := bm[wordIdx] & RMask[bitIdx]\n", "\tif i == 77 && end == 78 {\n\t\tRMask[64] = 1\n\t}\n\tword := bm[wordIdx] & RMask[bitIdx]\n")
+M("C19", "decode-sorts-input-inplace", "bmtree/decode.go", "\trst := make([]uint64, 0)\n", "\trst := make([]uint64, 0)\n\tif len(bm) > 1 && bm[0] == 0 {\n\t\tbm[0], bm[1] = bm[1], bm[0]\n\t\tdefer func() { bm[0], bm[1] = bm[1], bm[0] }()\n\t}\n")
